@@ -38,15 +38,15 @@ size_t UG, UG2;
      && __CPROVER_is_fresh(uf_rank, uf_cap * 8) && __CPROVER_is_fresh(UF_ROOTA, uf_cap * 8)           \
      && __CPROVER_is_fresh(UF_DEPTHA, uf_cap * 8) && uf_pn <= uf_cap && uf_rn == uf_pn)
 
-/* representation invariant at element i (i < n is the caller's business):
- *   parent and representative stay inside the universe; the parent is in the same class;
- *   i is a fixed point of parent exactly when it is its own representative; the representative is a
- *   fixed point; DEPTH is 0 at fixed points and strictly decreases along parent otherwise. */
-#define UF_INV(i)                                                                                     \
-    (UF_P(i) < UF_N && UF_ROOT(i) < UF_N && UF_ROOT(UF_P(i)) == UF_ROOT(i)                             \
-     && ((UF_P(i) == (i)) == (UF_ROOT(i) == (i))) && UF_P(UF_ROOT(i)) == UF_ROOT(i)                    \
-     && UF_ROOT(UF_ROOT(i)) == UF_ROOT(i) && (UF_P(i) != (i) || UF_DEPTH(i) == 0)                      \
-     && (UF_P(i) == (i) || UF_DEPTH(UF_P(i)) < UF_DEPTH(i)))
+/* representation invariant at element i (i < n is the caller's business), in two parts.
+ * UF_CHAIN(i): the parent stays inside the universe and in the same class; i is a fixed point of parent exactly
+ *   when it is its own representative; DEPTH is 0 at fixed points and strictly decreases along parent otherwise.
+ * UF_REP(i):  the representative is inside the universe and is a fixed point representing itself. */
+#define UF_CHAIN(i)                                                                                   \
+    (UF_P(i) < UF_N && UF_ROOT(UF_P(i)) == UF_ROOT(i) && ((UF_P(i) == (i)) == (UF_ROOT(i) == (i)))     \
+     && (UF_P(i) != (i) || UF_DEPTH(i) == 0) && (UF_P(i) == (i) || UF_DEPTH(UF_P(i)) < UF_DEPTH(i)))
+#define UF_REP(i) (UF_ROOT(i) < UF_N && UF_P(UF_ROOT(i)) == UF_ROOT(i) && UF_ROOT(UF_ROOT(i)) == UF_ROOT(i))
+#define UF_INV(i) (UF_CHAIN(i) && UF_REP(i))
 
 /* parent[i] as an rvalue: the index obligation is proved, the forall-invariant is instantiated */
 static inline size_t uf_prd(UF_PARAMS, size_t i)
@@ -54,7 +54,7 @@ static inline size_t uf_prd(UF_PARAMS, size_t i)
 #ifdef FSL_CBMC
     __CPROVER_assert(i < uf_pn, "union_find: parent[] index in range");
 #endif
-    FSL_PRE(UF_INV(i));
+    FSL_PRE(UF_CHAIN(i));
     return uf_parent[i];
 }
 /* parent[i] / rank[i] as lvalues */
